@@ -722,6 +722,14 @@ impl<'a, W: Write> DocumentPrinter<'a, W> {
                 InstantiationArgument::Fill(_) => write!(self.writer, "...")?,
             }
 
+            // A `...` that is not the last argument needs a separator too,
+            // otherwise it is glued to the next argument when parsed again
+            if matches!(arg, InstantiationArgument::Fill(_))
+                && !std::ptr::eq(arg, expr.arguments.last().unwrap())
+            {
+                write!(self.writer, ",")?;
+            }
+
             self.newline()?;
         }
 
